@@ -257,6 +257,196 @@ def make_token(n):
     return harness
 
 
+# ------------------------------------------------------------------ L3b: ntos on repr skeletons
+_NTOS_MODS = None
+
+
+def ntos_mods():
+    """svg_meta loaded with `str`/`repr` replaced so that str(n) of the symbolic float below is its
+    symbolic repr string"""
+    global _NTOS_MODS
+    if _NTOS_MODS is None:
+        from sx.values import SxStr, sx_repr
+
+        _NTOS_MODS = loader.load(fake_skia=True, lex_placeholders=False, modules=("svg_meta",), extra_builtins={"str": SxStr, "repr": sx_repr})
+    return _NTOS_MODS
+
+
+class ReprFloat(SymReal):
+    """A float (or int) known by its repr: characters are symbolic digits inside a concrete
+    repr(float) skeleton; the value is positional arithmetic over them (10**e of a symbolic
+    exponent is an uninterpreted positive power)."""
+
+    def __init__(self, tok, form, sk):
+        SymReal.__init__(self, tok.to_float().t)
+        self.tok, self.form, self.sk = tok, form, sk
+
+    def __sx_str__(self):
+        return self.tok
+
+    def __sx_isinstance__(self, classinfo):
+        import numbers
+        from sx.values import SxFloat, SxInt
+
+        cs = classinfo if isinstance(classinfo, tuple) else (classinfo,)
+        mine = (int, SxInt, numbers.Integral) if self.form == "int" else (float, SxFloat)
+        return any(c in mine or c in (numbers.Number, numbers.Real, object) for c in cs)
+
+    def is_integer(self):
+        if self.form == "int":
+            return True  # int.is_integer exists since python 3.12
+        if self.form == "fixed":
+            frac = self.tok.cs[-self.sk["nf"] :]
+            return all(SymStr.is_char(c, 48) for c in frac)
+        if self.form == "exppos":
+            return True  # >= 1e16 with at most 7 significant digits
+        return False  # d(.ddd)e-NN, NN >= 5, d != 0
+
+    def __sx_int__(self):
+        cs = self.tok.cs
+        if self.form == "int":
+            return ReprInt(SymStr(cs))
+        if self.form == "expneg":
+            return 0
+        if self.form == "exppos":
+            # str(int(1e23)) is the exact binary expansion of the double: outside the real-number model
+            C.cur().opts.setdefault("outside_hits", []).append("int() of a float >= 1e16")
+            raise C.Infeasible()
+        neg = self.sk["sign"] == "-"
+        ip = cs[1 : 1 + self.sk["ni"]] if neg else cs[: self.sk["ni"]]
+        if self.sk["ni"] == 1 and SymStr.is_char(ip[0], 48):
+            return 0  # int(-0.5) == 0
+        return ReprInt(SymStr(([45] if neg else []) + list(ip)))
+
+
+class ReprInt:
+    """int(n) of a ReprFloat: only its decimal string is needed"""
+
+    def __init__(self, digits):
+        self.digits = digits
+
+    def __sx_str__(self):
+        return self.digits
+
+    __str__ = None
+
+
+def _digits(name, n, first_nonzero=False, last_nonzero=False):
+    out = []
+    for i in range(n):
+        alpha = "0123456789"
+        if (i == 0 and first_nonzero) or (i == n - 1 and last_nonzero):
+            alpha = "123456789"
+        out.append(SymStr.fresh(f"{name}{i}", 1, alpha).cs[0])
+    return out
+
+
+def _ival(cs):
+    v = 0
+    for c in cs:
+        v = v * 10 + (c - 48)
+    return v
+
+
+def make_ntos(form, sk):
+    """the real ntos on an arbitrary float of the given repr skeleton; the printed text must be one
+    number token (whole match, not extended by what may follow it) whose value is the float's"""
+
+    def skeleton(h):
+        pre = [45] if sk["sign"] == "-" else []
+        if form == "int":
+            ip = _digits("i", sk["ni"], first_nonzero=sk["ni"] > 1)
+            return pre + ip
+        if form == "fixed":
+            ip = _digits("i", sk["ni"], first_nonzero=sk["ni"] > 1)
+            fp = _digits("f", sk["nf"], last_nonzero=sk["nf"] > 1)
+            if sk["ni"] == 1 and sk["nf"] > 4:
+                # 0.0000x prints in exponent form: below 1e-4 is not a fixed repr
+                h.ctx.assume(z3.Or(ip[0] != 48, *[c != 48 for c in fp[:4]]))
+            return pre + ip + [46] + fp
+        d1 = _digits("i", 1, first_nonzero=True)
+        fp = _digits("f", sk["nf"], last_nonzero=True) if sk["nf"] else []
+        ep = _digits("x", sk["ne"], first_nonzero=sk["ne"] == 3)
+        ev = _ival(ep)
+        if form == "expneg":
+            h.ctx.assume(z3.And(ev >= 5, ev <= 324))
+        else:
+            h.ctx.assume(z3.And(ev >= 16, ev <= 308))
+        return pre + d1 + ([46] + fp if fp else []) + [101, 45 if form == "expneg" else 43] + ep
+
+    def harness(h):
+        P = c10_mods().svg_path_iter if h.symbolic else h.m.svg_path_iter
+        if h.symbolic:
+            h.ctx.opts["alphabet"] = "0123456789-+.e"
+            h.ctx.opts["pow10_uf"] = True
+            tok = SymStr(skeleton(h))
+            n = ReprFloat(tok, form, sk)
+            out = ntos_mods().svg_meta.ntos(n)
+            if isinstance(out, str):
+                out = SymStr([ord(c) for c in out])
+            if not h.check(isinstance(out, SymStr), "ntos.returns_text", detail=type(out).__name__):
+                return ["type"]
+            text = None
+            value_ok = SymReal(out.to_float().t) == SymReal(n.t) if _floatable(out) else False
+        else:
+            text = _model_text(h, form, sk)
+            n = int(text) if form == "int" else float(text)
+            if repr(n) != text:
+                raise Abort(f"{text!r} is not a repr")
+            out = h.m.svg_meta.ntos(n)
+            if not h.check(isinstance(out, str), "ntos.returns_text", detail=type(out).__name__):
+                return ["type"]
+            try:
+                value_ok = float(out) == n
+            except ValueError:
+                value_ok = False
+        L = len(out)
+        m = P._FLOAT_RE.match(out)
+        h.check(m is not None and m.span() == (0, L), "ntos.printed_number_is_one_token", detail=(text, out if not h.symbolic else None))
+        for tail in (",1", " 1", "-1"):
+            m2 = P._FLOAT_RE.match(out + tail)
+            h.check(m2 is not None and m2.span() == (0, L), "ntos.printed_number_token_not_extended", detail=(text, tail))
+        h.check(value_ok, "ntos.printed_number_has_the_value", detail=(text, out if not h.symbolic else None))
+        return ["ntos", form]
+
+    return harness
+
+
+def _floatable(s):
+    try:
+        s.to_float()
+        return True
+    except ValueError:
+        return False
+
+
+def _model_text(h, form, sk):
+    def ds(name, n):
+        return "".join(chr(int(h.real(f"{name}{i}!0"))) for i in range(n))
+
+    pre = sk["sign"]
+    if form == "int":
+        return pre + ds("i", sk["ni"])
+    if form == "fixed":
+        return pre + ds("i", sk["ni"]) + "." + ds("f", sk["nf"])
+    return pre + ds("i", 1) + ("." + ds("f", sk["nf"]) if sk["nf"] else "") + "e" + ("-" if form == "expneg" else "+") + ds("x", sk["ne"])
+
+
+def ntos_cases(tier):
+    cs = []
+    maxd = 4 if tier == "quick" else 7
+    for sign in ("", "-"):
+        for ni in range(1, maxd + 1):
+            cs.append({"kind": "ntos", "form": "int", "sk": {"sign": sign, "ni": ni}})
+            for nf in range(1, maxd + 2 - ni + (3 if ni == 1 else 0)):
+                cs.append({"kind": "ntos", "form": "fixed", "sk": {"sign": sign, "ni": ni, "nf": nf}})
+        for form in ("expneg", "exppos"):
+            for nf in range(0, maxd):
+                for ne in (2, 3):
+                    cs.append({"kind": "ntos", "form": form, "sk": {"sign": sign, "nf": nf, "ne": ne}})
+    return cs
+
+
 def cases(tier, seed):
     cs = []
     nmax = 3 if tier == "quick" else 4
@@ -283,6 +473,7 @@ def cases(tier, seed):
             cs.append({"kind": "print", "letter": L, "reps": r})
     for n in range(1, 6 if tier == "quick" else 8):
         cs.append({"kind": "token", "n": n})
+    cs += ntos_cases(tier)
     return cs
 
 
@@ -302,6 +493,8 @@ def harness_for(case):
         return make_l2(case["letters"], case["reps"], case["numlen"], case["sep"])
     if k == "print":
         return make_print(case["letter"], case["reps"])
+    if k == "ntos":
+        return make_ntos(case["form"], case["sk"])
     return make_token(case["n"])
 
 
@@ -334,6 +527,8 @@ def finding_key(case, failure):
         k["letters"] = case["letters"]
     elif case["kind"] == "print":
         k["letter"] = case["letter"]
+    elif case["kind"] == "ntos":
+        k["form"] = case["form"]
     else:
         k["n"] = case["n"]
     return k
